@@ -322,7 +322,7 @@ class Timeline:
                     track.release_notes()
                 else:
                     raise
-            if track.is_finished and track.remove_when_done:
+            if track.is_finished and track.remove_when_done and track in self.tracks:
                 self.tracks.remove(track)
                 log.info("Timeline: Track finished, removing from scheduler (total tracks: %d)" % len(self.tracks))
 
